@@ -534,7 +534,7 @@ func (c *Check) Fanout(specs []any, o FanoutOpts) []ChildResult {
 	if o.RunName == "" {
 		o.RunName = c.T.Name()
 	}
-	work, err := os.MkdirTemp("", "verif-fan-"+c.ID+"-")
+	work, err := os.MkdirTemp(ScratchBase(), "verif-fan-"+c.ID+"-")
 	if err != nil {
 		c.T.Fatal(err)
 	}
@@ -604,7 +604,7 @@ func (c *Check) runChild(work string, i int, spec any, o FanoutOpts) ChildResult
 	cmd.Env = append(os.Environ(),
 		"VERIF_CHILD_OUT="+outPath, "VERIF_CHILD_SPEC="+specPath,
 		"VERIF_SEED="+strconv.FormatInt(c.Seed, 10), "VERIF_TIER="+c.Tier,
-		"TMPDIR="+dir,
+		"TMPDIR="+dir, "VERIF_SCRATCH="+dir,
 		"GORACE=halt_on_error=0 history_size=5 log_path="+filepath.Join(dir, "race"),
 		"GOTRACEBACK=all")
 	cmd.Env = append(cmd.Env, o.Env...)
